@@ -19,6 +19,7 @@ func racyProfile() vcase.Profile {
 		Outcomes:   []string{"success", "success", "error", "crash", "never", "never", "alt", "bad_output"},
 		DeployFail: true, DeployOdd: true, Foreach: true, Tags: true, Enabled: true, WaitFor: true, StopIf: true, SoftOpt: true,
 		EngineOuts: true, MaxOutputs: 3, MaxDelayMs: 25, NeverOK: true, ForeachFailures: true, IntArithOnOutputs: true, StructFieldRefs: true,
+		LiteralEnabled: true, ClosedRefs: true, // (excluded while K11 was open; K14 cases are recognised and tamed)
 	}
 }
 
